@@ -896,8 +896,61 @@ func c12CellLife(r *core.Run, prog *core.Program) {
 			}
 		}
 	}
+	// release helpers: a function that sends VarReq{REQ_REMOVE, _, <its parameter>}; a call of it
+	// releases the argument
+	isRemoveSend := func(n ast.Node) (ast.Expr, bool) {
+		send, ok := n.(*ast.SendStmt)
+		if !ok {
+			return nil, false
+		}
+		cl, ok := ast.Unparen(send.Value).(*ast.CompositeLit)
+		if !ok || len(cl.Elts) != 3 {
+			return nil, false
+		}
+		first := cl.Elts[0]
+		if kv, ok := first.(*ast.KeyValueExpr); ok {
+			first = kv.Value
+		}
+		id0, ok := ast.Unparen(first).(*ast.Ident)
+		if !ok || info.ObjectOf(id0) != removeConst {
+			return nil, false
+		}
+		cellE := cl.Elts[2]
+		if kv, ok := cellE.(*ast.KeyValueExpr); ok {
+			cellE = kv.Value
+		}
+		return cellE, true
+	}
+	releaseHelpers := map[types.Object]int{}
+	core.FuncDecls(pk, func(_ *ast.File, fd *ast.FuncDecl) {
+		pidx := map[types.Object]int{}
+		i := 0
+		for _, f := range fd.Type.Params.List {
+			for _, nm := range f.Names {
+				pidx[info.ObjectOf(nm)] = i
+				i++
+			}
+		}
+		ast.Inspect(fd.Body, func(n ast.Node) bool {
+			if cellE, ok := isRemoveSend(n); ok {
+				if id, ok := ast.Unparen(cellE).(*ast.Ident); ok {
+					if k, ok := pidx[info.ObjectOf(id)]; ok {
+						if o := info.Defs[fd.Name]; o != nil {
+							releaseHelpers[o] = k
+						}
+					}
+				}
+			}
+			return true
+		})
+	})
 	nSites := 0
 	core.FuncDecls(pk, func(_ *ast.File, fd *ast.FuncDecl) {
+		if o := info.Defs[fd.Name]; o != nil {
+			if _, isHelper := releaseHelpers[o]; isHelper {
+				return // its own send is the release the callers are charged with
+			}
+		}
 		// parent map
 		parents := map[ast.Node]ast.Node{}
 		var stack []ast.Node
@@ -1001,25 +1054,29 @@ func c12CellLife(r *core.Run, prog *core.Program) {
 		}
 		k := 0
 		ast.Inspect(fd.Body, func(n ast.Node) bool {
-			send, ok := n.(*ast.SendStmt)
-			if !ok {
+			var send ast.Stmt
+			var cellE ast.Expr
+			if ce, ok := isRemoveSend(n); ok {
+				send, cellE = n.(ast.Stmt), ce
+			} else if call, ok := n.(*ast.CallExpr); ok {
+				if k, ok := releaseHelpers[core.CalleeOf(info, call)]; ok && k < len(call.Args) {
+					cellE = call.Args[k]
+					// the statement the call belongs to
+					for p := ast.Node(call); p != nil; p = parents[p] {
+						if st, ok := p.(ast.Stmt); ok {
+							switch parents[p].(type) {
+							case *ast.BlockStmt, *ast.CaseClause, *ast.CommClause:
+								send = st
+							}
+						}
+						if send != nil {
+							break
+						}
+					}
+				}
+			}
+			if send == nil {
 				return true
-			}
-			cl, ok := ast.Unparen(send.Value).(*ast.CompositeLit)
-			if !ok || len(cl.Elts) != 3 {
-				return true
-			}
-			first := cl.Elts[0]
-			if kv, ok := first.(*ast.KeyValueExpr); ok {
-				first = kv.Value
-			}
-			id0, ok := ast.Unparen(first).(*ast.Ident)
-			if !ok || info.ObjectOf(id0) != removeConst {
-				return true
-			}
-			cellE := cl.Elts[2]
-			if kv, ok := cellE.(*ast.KeyValueExpr); ok {
-				cellE = kv.Value
 			}
 			rid := rootIdent(cellE)
 			if rid == nil {
